@@ -233,7 +233,7 @@ class ROLEQ:
             raise ValueError("ROLEQ needs at least 2 samples of each sensor")
         Q = np.zeros((num_samples, 4))
         oleq = OLEQ(magnetic_ref=self.m_ref, frame=self.frame)
-        Q[0] = oleq.estimate(self.acc[0], self.mag[0]) if self.q0 is None else self.q0
+        Q[0] = oleq.estimate(self.acc[0], self.mag[0]) if self.q0 is None else self.q0/np.linalg.norm(self.q0)
         if not np.all(np.isfinite(Q[0])):
             raise ValueError("The initial attitude cannot be estimated from null acceleration or magnetic samples.")
         for t in range(1, num_samples):
